@@ -170,3 +170,38 @@ Print Assumptions C04_unique.
 Print Assumptions C04_prediction_affine.
 Print Assumptions C04_warmup_irrelevant.
 Print Assumptions C04_fit_defined.
+
+(* ================================================================================================================ *)
+(* Tie (T): the functions GENERATED on this run from the current source text of nodes/readouts/ridge.py and base.py
+   (coq/gen/Gen_ridge.v) ARE the model the theorems above are about -- for EVERY Num instance (the equalities are structural),
+   hence both for the reals of the theorems and for the rationals of the correspondence runs.  The generated code reads the
+   dimensions off the arrays, as numpy does; [rect c A]: A is non-empty with rows of length c.                          *)
+From RV Require Import base.GenPrelude gen.Gen_ridge proofs.Gen_ridge_eq.
+
+Section C04_generated.
+Context {F : Type} `{Num F}.
+Variable solve : list (list F) -> list (list F) -> list (list F).
+
+(* partial_backward (+ _accumulate, under the lock or not): the new XXT / YXT buffers *)
+Theorem C04_generated_partial_backward_is_model (b : bool) (din dout : nat) (acc : list (list F) * list (list F))
+        (X Y : list (list F)) (lock : bool) :
+  rect din X -> rect dout Y ->
+  GenRidge.partial_backward b (fst acc) (snd acc) X Y lock = partial_backward b din dout acc X Y.
+Proof. exact (gen_partial_backward_eq b din dout acc X Y lock). Qed.
+
+(* backward: the (Wout, bias) written from the solver's answer Wo (non-empty, dout columns) *)
+Theorem C04_generated_backward_is_model (b : bool) (lam : F) (din dout : nat) (acc : list (list F) * list (list F)) :
+  rect (aug_dim b din) (snd acc) ->
+  let Wo := backward_raw solve b lam din acc in
+  Wo <> [] -> mcols Wo = dout ->
+  GenRidge.backward b lam din (fst acc) (snd acc) solve = split_wo b dout Wo.
+Proof. exact (gen_backward_eq solve b lam din dout acc). Qed.
+
+Theorem C04_generated_forward_is_model (dout : nat) (Wout : list (list F)) (bv x : list F) : rect dout Wout ->
+  GenRidge.readout_forward Wout bv x = forward dout Wout bv x.
+Proof. exact (gen_ridge_forward_eq dout Wout bv x). Qed.
+End C04_generated.
+
+Print Assumptions C04_generated_partial_backward_is_model.
+Print Assumptions C04_generated_backward_is_model.
+Print Assumptions C04_generated_forward_is_model.
